@@ -297,6 +297,15 @@ func TestCheck(t *testing.T) {
 	r := mc.New("C12", "model_checking")
 	depth := mc.Pick(r, 6, 7)
 	if f := mc.ReplayFile(); f != "" {
+		var rc routingCacheReplay
+		if err := mc.LoadReplay(f, &rc); err == nil && rc.Family == "routing-cache" {
+			fail := runRoutingCache(t, rc.History)
+			fmt.Printf("routing-cache history %v -> %q\n", rc.History, fail)
+			if fail != "" {
+				t.Fail()
+			}
+			return
+		}
 		var rp mc.BFSReplay
 		if err := mc.LoadReplay(f, &rp); err != nil || rp.Model == "" {
 			fmt.Println("replay: schedule findings carry their trace in the replay file")
@@ -325,7 +334,7 @@ func TestCheck(t *testing.T) {
 		}
 		return
 	}
-	r.Rule = fmt.Sprintf("explicit-state BFS to depth %d over histories of {req(k), resp(k, body, status), tick(TTL-1ns | 1ns | 1s)} on three keys differing in method / selected path parameter, for the caching remedy (cache size: two entries fit / all fit) and the response-based throttling remedy (relative / absolute retry-after); every transition runs the real plugin + MemoryCache (with its expiry sleeper goroutines) in a virtual-time bubble; plus the MemoryCache component by itself (size 3, ttl 2 s: histories of stores of sizes 1/2/4 under three keys incl. overwrites, clock steps) ; plus schedules of concurrent stores and store-vs-expiry; distinct = state keys", depth)
+	r.Rule = fmt.Sprintf("explicit-state BFS to depth %d over histories of {req(k), resp(k, body, status), tick(TTL-1ns | 1ns | 1s)} on three keys differing in method / selected path parameter, for the caching remedy (cache size: two entries fit / all fit) and the response-based throttling remedy (relative / absolute retry-after); every transition runs the real plugin + MemoryCache (with its expiry sleeper goroutines) in a virtual-time bubble; plus the caching remedy behind the real SPOE message handlers of a policy-mode manager (every history to length 5 of requests / responses of three URLs that differ only in letter case: answered from memory only with the body stored for exactly that URL); plus the MemoryCache component by itself (size 3, ttl 2 s: histories of stores of sizes 1/2/4 under three keys incl. overwrites, clock steps) ; plus schedules of concurrent stores and store-vs-expiry; distinct = state keys", depth)
 	r.Assume("safety only: a miss is never a violation (hits are counted in the evidence)", "a response stored exactly TTL ago may still be replayed (boundary instant left open)", "absolute retry-after: 1 microsecond of slack for the float64 seconds representation")
 	if r.Parallel(t, 16) {
 		r.Finish(t)
@@ -360,6 +369,7 @@ func TestCheck(t *testing.T) {
 		}
 	}
 	memcacheFamily(t, r, &shard)
+	routingCacheFamily(t, r, &shard)
 	r.Add("traces_validated_against_impl", r.Counters["transitions"])
 	schedules(t, r)
 	r.Finish(t)
